@@ -196,7 +196,51 @@ def bounded(tier, seed, procs):
             if want[0] == "val" and not (got[0] == "val" and got[1] == want[1]):
                 b2.fail(Failure("non-commuting", f"program={i} tree={built[1] if built[0] == 'val' else None!r}", dict(kind="mat", program=i),
                                 expected=outcome.describe(want), actual=outcome.describe(got), functions=["Product.__mul__", "Expression.__mul__"]))
-    return [b, b2, b_constructors(tier), b_linear_combination(tier)]
+    return [b, b2, b_constructors(tier), b_linear_combination(tier), b_registered_constants(tier)]
+
+
+def b_registered_constants(tier):
+    """A number class registered with register_constant_class after import is a constant for every operator, on either side."""
+    import pymbolic.primitives as p
+    from pymbolic.mapper.evaluator import EvaluationMapper
+    b = BoundedRun("registered-constant-class", rule="after primitives.register_constant_class(Fraction) (undone afterwards): every binary operator with a Fraction on the left / on the "
+                   "right of a variable, a sum, a product and a quotient builds a tree that evaluates to the plain result in 3 environments; after unregister_constant_class the "
+                   "Fraction is rejected again (TypeError) or still computed correctly, never computed wrongly", bound="12 operators x 4 operand shapes x 2 sides x 3 environments",
+                   functions=["register_constant_class", "unregister_constant_class", "is_constant", "is_valid_operand", "is_arithmetic_expression", "Expression.__add__..__rpow__"])
+    x, y = trees.X, trees.Y
+    shapes = {"var": lambda x, y: x, "sum": lambda x, y: x + y, "prod": lambda x, y: x * y, "quot": lambda x, y: x / (y + 7)}
+    F = Fraction(3, 2)
+    envs = [dict(x=Fraction(2), y=Fraction(5)), dict(x=Fraction(-1, 3), y=Fraction(4)), dict(x=Fraction(7, 2), y=Fraction(-2))]
+    arith = {k: v for k, v in BIN.items() if k in ("+", "-", "*", "/", "//", "%", "**")}
+    p.register_constant_class(Fraction)
+    try:
+        for opn, op in arith.items():
+            for sn, sh in shapes.items():
+                for side in ("right", "left"):
+                    prog = (lambda a, c: op(sh(a, c), F)) if side == "right" else (lambda a, c: op(F, sh(a, c)))
+                    built = outcome.run(lambda: prog(x, y))
+                    for env in envs:
+                        want = outcome.run(lambda: prog(env["x"], env["y"]))
+                        if want[0] != "val" or isinstance(want[1], complex):
+                            continue
+                        b.case((opn, sn, side, repr(env["x"])), sample=dict(op=opn, operand=sn, side=side))
+                        got = outcome.run(lambda: EvaluationMapper(env)(built[1])) if built[0] == "val" else built
+                        if not (got[0] == "val" and outcome.same_value(got[1], want[1], typed=False)):
+                            b.fail(Failure("registered-constant-class", f"op={opn} operand={sn} fraction-on={side} x={env['x']}", dict(kind="regconst", op=opn, operand=sn, side=side),
+                                           expected=outcome.describe(want), actual=outcome.describe(got)[:150], functions=["is_valid_operand", f"Expression operator {opn}"]))
+                            break
+    finally:
+        p.unregister_constant_class(Fraction)
+    for opn, op in arith.items():
+        r = outcome.run(lambda: op(x, F))
+        b.case(("after-unregister", opn))
+        if r[0] == "val":
+            got = outcome.run(lambda: EvaluationMapper(envs[0])(r[1]))
+            want = op(envs[0]["x"], F)
+            if not (got[0] == "val" and outcome.same_value(got[1], want, typed=False)):
+                b.fail(Failure("registered-constant-class", f"op={opn} after-unregister", dict(kind="regconst", op=opn), expected="TypeError or the right value", actual=outcome.describe(got)[:150],
+                               functions=["unregister_constant_class"]))
+    return b
 
 
 def b_linear_combination(tier):
